@@ -297,7 +297,11 @@ class TlSchemas:
                             if i >= len(data):
                                 # the count is read from the input: never loop past the bytes that are actually there
                                 raise TlError(f'vector of {length} elements does not fit in the remaining {len(data)} bytes')
-                            if sch:
+                            if subtype in self.base_types:
+                                # bare base type elements, e.g. (vector int256): parse them like a field of that type
+                                deser, j = self.deserialize(data[i:], False, {'value': subtype})
+                                deser = deser.get('value')
+                            elif sch:
                                 deser, j = self.deserialize(data[i:], False, sch.args)
                             else:
                                 deser, j = self.deserialize(data[i:], True)
